@@ -1,0 +1,146 @@
+//go:build verif
+
+package p2p
+
+// Deterministic-simulation support (build tag verif): the QUIC transport is
+// replaced by a simulator that drains the per-neighbor rings and delivers
+// frames through the real parser and dispatcher.
+
+import (
+	"sort"
+	"time"
+
+	"github.com/MixinNetwork/mixin/crypto"
+)
+
+const simEnabled = true
+
+var SimNow func() time.Time
+
+func simNow() (time.Time, bool) {
+	if SimNow == nil {
+		return time.Time{}, false
+	}
+	return SimNow(), true
+}
+
+func (me *Peer) SimAddNeighbor(id crypto.Hash) bool {
+	return me.relayers.Put(id, NewPeer(nil, id, "sim", true))
+}
+
+func (me *Peer) SimRemoveNeighbor(id crypto.Hash) {
+	me.relayers.Delete(id)
+}
+
+func (me *Peer) SimNeighborIDs() []crypto.Hash {
+	var ids []crypto.Hash
+	for _, p := range me.Neighbors() {
+		ids = append(ids, p.IdForNetwork)
+	}
+	sort.Slice(ids, func(i, j int) bool { return ids[i].String() < ids[j].String() })
+	return ids
+}
+
+// SimDrain pops what loopSendingStream would send to one neighbor in one
+// iteration: up to limit high priority then up to limit normal priority
+// messages, honouring and updating the recently-sent filter.
+func (me *Peer) SimDrain(to crypto.Hash, limit int) [][]byte {
+	p := me.relayers.Get(to)
+	if p == nil {
+		return nil
+	}
+	hm := me.pollRingWithCache(p.highRing, limit)
+	nm := me.pollRingWithCache(p.normalRing, limit)
+	msgs := append(hm, nm...)
+	out := make([][]byte, 0, len(msgs))
+	now, _ := simNow()
+	for _, m := range msgs {
+		out = append(out, m.data)
+		if m.key != nil {
+			me.snapshotsCaches.store(m.key, now)
+		}
+	}
+	return out
+}
+
+func (me *Peer) SimPending(to crypto.Hash) int {
+	p := me.relayers.Get(to)
+	if p == nil {
+		return 0
+	}
+	return len(p.highRing) + len(p.normalRing)
+}
+
+// SimDeliver is the body of loopReceiveMessage for one frame.
+func (me *Peer) SimDeliver(from crypto.Hash, data []byte) error {
+	msg, err := parseNetworkMessage(TransportMessageVersion, data)
+	if err != nil {
+		return err
+	}
+	me.receivedMetric.handle(msg.Type)
+	return me.handlePeerMessage(from, msg)
+}
+
+func SimMessageType(data []byte) byte {
+	if len(data) == 0 {
+		return 0
+	}
+	return data[0]
+}
+
+func SimParse(data []byte) (*PeerMessage, error) {
+	return parseNetworkMessage(TransportMessageVersion, data)
+}
+
+// SimSyncOnce is one pass of syncToNeighborLoop for one neighbor without the
+// sleeps: take the latest graph the neighbor sent, push head rounds and then
+// finalized snapshots since the computed topological offset (bounded).
+func (me *Peer) SimSyncOnce(to crypto.Hash, maxBatches int) (int, bool) {
+	p := me.relayers.Get(to)
+	if p == nil {
+		return 0, false
+	}
+	var g []*SyncPoint
+	for {
+		select {
+		case n := <-p.syncRing:
+			g = n
+			continue
+		default:
+		}
+		break
+	}
+	if g == nil {
+		return 0, false
+	}
+	graph := make(map[crypto.Hash]*SyncPoint)
+	for _, r := range g {
+		graph[r.NodeId] = r
+	}
+	points := me.handle.BuildGraph()
+	sort.Slice(points, func(i, j int) bool { return points[i].NodeId.String() < points[j].NodeId.String() })
+	offset, _ := me.compareRoundGraphAndGetTopologicalOffset(p, points, g)
+
+	nodes := me.handle.ReadAllNodesWithoutState()
+	local := make(map[crypto.Hash]*SyncPoint)
+	for _, n := range points {
+		local[n.NodeId] = n
+	}
+	for _, n := range nodes {
+		me.syncHeadRoundToRemote(local, graph, p, n)
+	}
+	batches := 0
+	for offset > 0 && batches < maxBatches {
+		off, err := me.simSyncSince(graph, p, offset)
+		batches++
+		if err != nil {
+			break
+		}
+		offset = off
+	}
+	return batches, true
+}
+
+func (me *Peer) simSyncSince(graph map[crypto.Hash]*SyncPoint, p *Peer, offset uint64) (uint64, error) {
+	return me.syncToNeighborSince(graph, p, offset)
+}
